@@ -603,9 +603,9 @@ def css_unescape(body):
 
 
 def token_content(tok):
-    t = tok.strip()
+    t = tok.strip(' \t\r\n\f')
     if t[:4].lower() == 'url(':
-        t = t[4:-1].strip()
+        t = t[4:-1].strip(' \t\r\n\f')
     if t[:1] in '"\'':
         return css_unescape(t[1:-1])
     return css_unescape(t)
@@ -613,12 +613,18 @@ def token_content(tok):
 
 @st.composite
 def pairs_case(draw):
-    atoms = draw(st.lists(st.sampled_from(['a', 'b', ' ', 'BS', 'BS', 'DQ', 'SQ', '1', 'é']), min_size=0, max_size=6))
+    # HEX*: an escape of fewer than six digits with nothing behind it: what follows is content unless it is CSS white space
+    atoms = draw(st.lists(st.sampled_from(['a', 'b', ' ', 'BS', 'BS', 'DQ', 'SQ', '1', 'é', 'HEX41', 'HEXe9', 'HEX2014', '\xa0', '\u3000', '\u2028',
+                                           '\x0b', '\x85', 'g']), min_size=0, max_size=6))
     tail = draw(st.integers(0, 3))  # escaped backslashes at the very end
     form = draw(st.sampled_from(['dq', 'sq', 'url-dq', 'url-sq', 'url-bare']))
     q = '"' if 'dq' in form else "'"
     if form == 'url-bare':
-        atoms = [a for a in atoms if a not in (' ', 'DQ', 'SQ')]
+        atoms = [a for a in atoms if a not in (' ', 'DQ', 'SQ', '\x0b', '\x85')]
+    # (a hex digit right behind it would belong to the escape: not generated, the code point could leave the Unicode range)
+    atoms = [('g' if a in ('a', 'b', '1') and i and atoms[i - 1].startswith('HEX') else a) for i, a in enumerate(atoms)]
+    atoms = [('\\' + a[3:]) if a.startswith('HEX') else a for a in atoms]
+    if form == 'url-bare':
         body = ''.join('\\\\' if a == 'BS' else a for a in atoms + ['BS'] * tail)
         return {'src': 'url(' + body + ')', 'form': form, 'omit': draw(st.booleans())}
     body = ''
